@@ -250,8 +250,9 @@ Definition quiescent_ok (c : case) : bool :=
           match pj_exp p with Some e => negb (is_some (pe_max e)) || pe_completed e | None => true end)
   | None =>
       (* the harness drives every history with a budget to quiescence; failing to get there is a hot loop.
-         Experiments without maxTrialCount legitimately run for ever (the property speaks of maxTrialCount set). *)
-      has_teardown c || match pj_exp (last_state c) with Some e => negb (is_some (pe_max e)) | None => true end
+         Experiments without maxTrialCount legitimately run for ever while they have no verdict (the property speaks
+         of maxTrialCount set); once they carry a verdict they must come to rest like any other. *)
+      has_teardown c || match pj_exp (last_state c) with Some e => negb (is_some (pe_max e)) && negb (pe_completed e) | None => true end
   end.
 
 (* ------------------------------------------------------------------ C16: resume policy *)
